@@ -104,3 +104,12 @@ Definition chk_ls_import (sch : schema) (A : list lsarr) (expect : lcol) (impl :
     res_eqb lcol_eqb (Ok expect) impl;
     match P' with Some q => wf_b q | None => true end;
     match P', impl with Some q, Ok l' => lcol_eqb (abs q) l' | _, _ => true end ].
+
+(* ---------- frame-level operations on record-major rows (C02, C07, C09 - C13) ---------- *)
+From NP Require Import Frame.
+Definition chk_rows (m : res (list nrow)) (sp : res (list nrow)) (impl : res (list nrow)) : list bool :=
+  [ res_eqb nrows_eqb m impl; res_eqb nrows_eqb sp impl; true; true ].
+Definition ftable_eqb : ftable -> ftable -> bool :=
+  list_eqb (fun a b => Z.eqb (fst a) (fst b) && record_eqb (snd a) (snd b)).
+Definition packed_eqb : list (Z * list record) -> list (Z * list record) -> bool :=
+  list_eqb (fun a b => Z.eqb (fst a) (fst b) && list_eqb record_eqb (snd a) (snd b)).
